@@ -91,11 +91,12 @@ Proof.
   - unfold timeit_enter in E.
     match type of E with context [if ?b then _ else _] => destruct b end; apply some_pair_inj in E; destruct E as [<- _];
       apply wt_tl_set_free; auto.
-  - unfold dyn_enter in H. cbn [fst snd] in H.
-    destruct (negb (is_none (tl_get g_dynamic_evaluate v_none g))); try discriminate.
+  - rewrite dyn_enter_thread in H.
+    destruct (is_none (tl_get g_dynamic_evaluate v_none g)); try discriminate.
     apply some_pair_inj in H. destruct H as [<- _]. split; cbn [fst snd]; auto. apply wt_tl_set_free; auto.
-  - unfold dyng_enter in H. apply some_pair_inj in H. destruct H as [<- _]. split; cbn [fst snd]; auto. apply wt_tl_set_free; auto.
-  - unfold loadtypes_enter in H. apply some_pair_inj in H. destruct H as [<- _]. split; cbn [fst snd]; auto. apply wt_push; auto. discriminate.
+  - rewrite dyn_enter_global in H. apply some_pair_inj in H. destruct H as [<- _]. split; cbn [fst snd]; auto. apply wt_tl_set_free; auto.
+  - destruct (loadtypes_enter_cases a l g) as [[d [E _]]|[E _]]; rewrite E in H; apply some_pair_inj in H; destruct H as [<- _];
+      split; cbn [fst snd]; auto. apply wt_push; auto. discriminate.
 Qed.
 
 (* every state reached while running a program from a well-typed state is well typed: the final one ... *)
@@ -232,16 +233,21 @@ Proof.
   - unfold observe. cbn [fst]. unfold timeit_enter, k_timing in *.
     match type of E with context [is_none ?x] => destruct (is_none x) eqn:N end; cbn [negb] in E;
       apply some_pair_inj in E; destruct E as [<- _]; apply tl_get_set_same; rewrite Ll; apply Nat.ltb_lt; vm_compute; reflexivity.
-  - unfold dyn_enter in H. cbn [fst snd] in H.
-    destruct (negb (is_none (tl_get g_dynamic_evaluate v_none g))); try discriminate.
-    apply some_pair_inj in H. destruct H as [<- _]. unfold observe. cbn [fst snd].
+  - rewrite dyn_enter_thread in H.
+    destruct (is_none (tl_get g_dynamic_evaluate v_none g)); try discriminate.
+    apply some_pair_inj in H. destruct H as [<- _]. unfold observe, get_dynamic_evaluate_fn. cbn [fst snd].
     apply tl_get_set_same. rewrite Ll. apply Nat.ltb_lt; vm_compute; reflexivity.
-  - unfold dyng_enter in H. apply some_pair_inj in H. destruct H as [<- _]. unfold observe. cbn [fst snd].
+  - rewrite dyn_enter_global in H. apply some_pair_inj in H. destruct H as [<- _]. unfold observe, get_dynamic_evaluate_fn. cbn [fst snd].
     rewrite tl_get_set_same by (rewrite Lg; apply Nat.ltb_lt; vm_compute; reflexivity). reflexivity.
-  - unfold loadtypes_enter in H. apply some_pair_inj in H. destruct H as [<- _]. unfold observe. cbn [fst snd].
-    destruct (tl_peek_dict g_ondemand_types g []) as [d Hd]. unfold v_empty_dict. rewrite Hd. unfold py_copy.
-    destruct (py_update_dict d a) as [d' Hd']. rewrite Hd'.
-    eapply tl_peek_push; [eassumption | reflexivity | apply Nat.ltb_lt; vm_compute; reflexivity].
+  - unfold observe. cbn [fst snd].
+    destruct (loadtypes_enter_cases a l g) as [[d [E D]]|[E N]]; rewrite E in H; apply some_pair_inj in H; destruct H as [<- _]; cbn [fst snd].
+    + rewrite <- D. eapply tl_peek_push; [eassumption | reflexivity | apply Nat.ltb_lt; vm_compute; reflexivity].
+    + (* the slot is a stack in a well-typed state *)
+      exfalso. destruct Wg as [_ W]. specialize (W g_ondemand_types). replace (gclass g_ondemand_types) with KStack in W by reflexivity.
+      revert E. unfold loadtypes_enter, lift2_enter, load_types_enter, tl_get, py_last, py_copy. cbn [fst snd].
+      destruct (st_get g_ondemand_types g) as [[x|x|[|x r]]|] eqn:G; try discriminate W; try (exfalso; eapply N; eauto; fail).
+      cbn [truthy v_none]. unfold v_empty_dict. destruct (py_update_dict [] a) as [d' Hd']. rewrite Hd'. intros E.
+      apply some_pair_inj in E. destruct E as [_ E]. discriminate E.
 Qed.
 
 (* inside the block, after any part of the body that does not let an exception escape (nested scopes of any
